@@ -269,6 +269,16 @@ steps! {
     c17_t_inval_array_ground_vs_ground: 4, (1, 0), 4, (1, 0);
     c17_t_inval_function_vs_function: 20, (0, 0), 20, (4, 4);
     c17_t_inval_dyn_vs_dyn: 18, (0, 0), 18, (4, 0);
+    // ground against ground, per list-carrying constructor (quick-tier twin of the thorough rows;
+    // added after seeded change R4-C17-a: the FnDef arm compared the answer's arguments with themselves)
+    c17_q_inval_fndef_ground_vs_ground: 9, (0, 0), 9, (0, 0);
+    c17_q_inval_adt_ground_vs_ground: 0, (0, 0), 0, (0, 0);
+    c17_q_inval_assoc_ground_vs_ground: 1, (0, 0), 1, (0, 0);
+    c17_q_inval_opaque_ground_vs_ground: 8, (0, 0), 8, (0, 0);
+    c17_q_inval_closure_ground_vs_ground: 12, (0, 0), 12, (0, 0);
+    c17_q_inval_coroutine_ground_vs_ground: 13, (0, 0), 13, (0, 0);
+    c17_q_inval_witness_ground_vs_ground: 14, (0, 0), 14, (0, 0);
+    c17_q_inval_alias_ground_vs_ground: 19, (0, 0), 19, (0, 0);
     // constructor mismatches
     c17_q_inval_tuple_vs_adt: 3, (0, 0), 0, (4, 4);
     c17_t_inval_slice_vs_raw: 5, (0, 0), 6, (4, 0);
